@@ -38,7 +38,7 @@ ASSUMPTIONS = [
     "graphs are compared by an independent blank-node matcher; a simple literal and the same form typed xsd:string are identified",
     "legal short reads are not faults and must give the identical graph",
 ]
-PROBES = ["chunk-inside-multibyte-char", "chunk-inside-escape", "chunk-between-CR-LF", "short-read-stream", "text-stream-without-buffer", "http-redirect", "format-guessed", "fault-fired", "fault-partial", "bufsiz-smaller-than-line", "raw-CR-in-literal", "awkward-path"]
+PROBES = ["chunk-inside-multibyte-char", "chunk-inside-escape", "chunk-between-CR-LF", "short-read-stream", "text-stream-without-buffer", "http-redirect", "format-guessed", "fault-fired", "fault-partial", "bufsiz-smaller-than-line", "raw-CR-in-literal", "awkward-path", "default-format-turtle", "relative-path-after-failed-call", "relative-path-after-chdir"]
 KNOWN_PREDICATES = {}
 
 OWN = ["nt", "nquads", "turtle", "trig"]
@@ -46,7 +46,7 @@ VIA_RDFLIB = ["xml", "trix", "json-ld", "hext"]
 LINE_FORMATS = {"nt", "nquads", "hext"}
 EXT = {"nt": "nt", "nquads": "nq", "turtle": "ttl", "trig": "trig", "xml": "rdf", "trix": "trix", "json-ld": "jsonld", "hext": "hext"}
 CTYPE = {"nt": "application/n-triples", "nquads": "application/n-quads", "turtle": "text/turtle", "trig": "application/trig", "xml": "application/rdf+xml", "trix": "application/trix", "json-ld": "application/ld+json"}
-MODES = ["data-str", "data-bytes", "source-bytes", "file-bytesio", "source-stringio", "textwrap-raw", "file-raw", "source-raw", "file-text", "source-text", "sis-str", "sis-bytes", "fis-raw", "path-str", "path-pathlib", "loc-file", "loc-http", "loc-http-redirect", "path-guess", "http-guess", "byteswrapper-text", "byteswrapper-str"]
+MODES = ["data-str", "data-bytes", "source-bytes", "file-bytesio", "source-stringio", "textwrap-raw", "file-raw", "source-raw", "file-text", "source-text", "sis-str", "sis-bytes", "fis-raw", "path-str", "path-pathlib", "loc-file", "loc-http", "loc-http-redirect", "path-guess", "http-guess", "byteswrapper-text", "byteswrapper-str", "data-noformat-publicid", "path-relative-late", "path-relative-chdir"]
 BUDGET = 4000000
 STRINGS = ["v", "", "a b", "café", "€ uro", "\U0001F600 smile", 'q"uote', "back\\slash", "line\nbreak", "tab\there", "cr\rhere", "crlf\r\nend", "x' y", "é" * 3, "end\\", "no\ufeffbreak", "\ufeffbom-first"]
 
@@ -245,6 +245,44 @@ def execute(trace, ctx):
             probe_boundaries(chunks, raw=False)
             ctx.probe("short-read-stream")
             ctx.probe("text-stream-without-buffer")
+        elif mode == "data-noformat-publicid":
+            # str / bytes with no format given: Turtle is the documented default, whatever the public id (base IRI) looks like
+            pid = ["http://ex.org/onto/pizza.owl", "http://ex.org/data.nt", "http://ex.org/x.json", "http://ex.org/doc.html", "http://ex.org/d.rdf"][op["uid"] % 5]
+            kw = {"data": doc if op["uid"] % 2 else data, "publicID": pid}
+            f = fmt if fmt != "turtle" else None
+            if f is None:
+                ctx.probe("default-format-turtle")
+        elif mode in ("path-relative-late", "path-relative-chdir"):
+            # a relative path: resolved against the working directory at the time of the call
+            da, db = os.path.join(tmpdir, f"wd{op['uid']}a"), os.path.join(tmpdir, f"wd{op['uid']}b")
+            os.makedirs(da, exist_ok=True)
+            os.makedirs(db, exist_ok=True)
+            rel = f"late{op['uid']}.{ext}"
+            from rdflib import Dataset as _DS
+
+            if mode == "path-relative-late":
+                os.chdir(da)
+                try:
+                    _DS().parse(rel, format=fmt)  # the file does not exist yet: this call must fail ...
+                    ctx.deviation("C05.missing-file-parsed", f"parsing the non-existent relative path {rel} did not raise")
+                except Exception:
+                    pass
+                with open(os.path.join(da, rel), "wb") as fh:  # ... and leave nothing behind that a later call could trip over
+                    fh.write(data)
+                ctx.probe("relative-path-after-failed-call")
+            else:
+                with open(os.path.join(da, rel), "wb") as fh:
+                    fh.write(b"" if fmt in ("json-ld",) else b"\n")  # another (empty) document under the same relative name
+                with open(os.path.join(db, rel), "wb") as fh:
+                    fh.write(data)
+                os.chdir(da)
+                try:
+                    _DS().parse(rel, format=fmt)
+                except Exception:
+                    pass
+                os.chdir(db)
+                ctx.probe("relative-path-after-chdir")
+            kw = {"source": rel}
         elif mode in ("byteswrapper-text", "byteswrapper-str"):
             # an InputSource that only offers rdflib's BytesIOWrapper as byte stream: parsers read it in sized chunks
             # (re-encoding a character stream on the fly, with its _leftover buffer)
@@ -407,6 +445,7 @@ def execute(trace, ctx):
     finally:
         import shutil
 
+        os.chdir("/")
         shutil.rmtree(tmpdir, ignore_errors=True)
 
 
